@@ -142,3 +142,35 @@ func VH_C13_queueFIFO() bool {
 	vCover("drained")
 	return true
 }
+
+//verif: replay=schedule unwind=8 cover=cancelled,served bounds="AskHub: 1 server, 1 asker whose context is cancelled concurrently (also while the handler runs): Deliver returns nil only after the handler finished, and an error only if no handler ever saw the request"
+func VH_C13_askHubDeliverCancel() bool {
+	h := NewAskHub[vAddr]()
+	ctxS, ctxD := vNewCtx(), vNewCtx()
+	started, finished := 0, 0
+	ds := make(chan struct{})
+	go func() {
+		h.ServeAsk(ctxS, func(ctx context.Context, resp []byte, m p2p.Message[vAddr]) int {
+			started++
+			vYield()
+			resp[0] = 9
+			finished++
+			return 1
+		})
+		close(ds)
+	}()
+	go func() { ctxD.cancel() }()
+	buf := make([]byte, 2)
+	n, derr := h.Deliver(ctxD, buf, p2p.Message[vAddr]{Src: 1, Dst: 2, Payload: []byte{7}})
+	if derr == nil {
+		vCover("served")
+		vAssert(started == 1 && finished == 1 && n == 1 && buf[0] == 9, "ask-success-before-handler-finished")
+	} else {
+		vCover("cancelled")
+		vAssert(derr == vErrCanceled, "ask-returned-unexpected-error")
+		vAssert(started == 0, "ask-error-although-a-handler-saw-the-request")
+	}
+	ctxS.cancel()
+	<-ds
+	return true
+}
